@@ -523,8 +523,8 @@ def check_proofs(ctx: Ctx, timeout=1500):
         ctx.broken("proof", "proof:file", f"Properties/{ctx.prop}.v is missing")
         return
     with build_lock():
-        if not os.path.exists(os.path.join(COQ, "Makefile")):
-            sh(["make", "-C", VERIF, "coq-makefile"], timeout=120)
+        # the file list may have grown since the Makefile was generated
+        sh(["make", "-C", VERIF, "coq-makefile"], timeout=120)
         cone = coq_cone(prop_v)
         deps = [os.path.relpath(p, COQ)[:-2] + ".vo" for p in cone if p != prop_v]
         # always regenerate dependency info: Gen files may have changed
